@@ -14,6 +14,13 @@ the metaclass call ``type(Base)(name, (Base,), namespace)``.  The model never
 looks at the class dictionaries, at ``__prefix_traits__`` or at the
 resolved-name cache; it only knows the declared rules.
 
+Stratum 'indirect' (plumbing in _c13_indirect.py): the same model judges a
+name that is reached through another object's DelegatesTo / PrototypedFrom
+trait (all prefix styles), trait_set / trait_get, sync_trait, constructor
+keywords, observe / on_trait_change registrations and trait look-ups, mostly as
+the first mention of the name on its class -- always for the name ON THE OBJECT
+THAT STORES IT.
+
 See DESIGN.md section 4 / C13.
 """
 import copy as copy_module
@@ -27,6 +34,7 @@ from traits.api import (
 )
 
 from vf.util import same, short
+from vf.monitors import _c13_indirect as IND
 
 META = {
     "level": "exploration",
@@ -59,6 +67,23 @@ META = {
              "is fine) on which nothing may be readable that the governing class-level trait rejects, "
              "and all further operations are judged on it. 'bookkeeping': remove_trait on names for "
              "which traits keeps an instance trait of its own (observed, reported only when enabled). "
+             "'indirect': the name is reached WITHOUT a plain getattr/setattr on the object that stores "
+             "it, mostly as the first mention of that name on any instance of the class (so wildcard / "
+             "class-default names are still unresolved), and is judged by the same resolution model for "
+             "the name on the storing object: reads and fingerprint writes through a DelegatesTo / "
+             "Delegate(modify=True) trait of another object in all four prefix styles (same name, "
+             "prefix='target', 'head*' + delegator name, '*' + the delegator class's __prefix__), "
+             "listenable or not (read back directly); PrototypedFrom / Delegate(modify=False) in the "
+             "same styles (accept pattern and write-once policy of the governing trait, accepted value "
+             "kept on the delegator, prototype untouched); trait_set / trait_setq / "
+             "trait_set(trait_change_notify=False) / trait_get(name) / trait_get([name]) / constructor "
+             "keywords; other.sync_trait(v, obj, name) one-way and mutual (outcome of the linking call = "
+             "outcome of the initial assignment; every forwarded change judged by a direct read); "
+             "observe(handler, name) / observe(handler, trait(name, optional=True[, notify=False])) / "
+             "on_trait_change(handler, name) and trait() / base_trait() / trait_names() / traits() "
+             "look-ups before any direct access (unjudged themselves, fingerprint after them); "
+             "validate_trait(name, value) (legal exactly when the governing value kind accepts). "
+             "Violations found on an indirect route carry the key prefix via-<route>/. "
              "Value kinds may take their default from a _name_default method. "
              "distinct_nontrivial counts distinct (op, governing kind, resolution route, number and "
              "origin of matching prefixes, root, stored-state class, outcome class) signatures of judged "
@@ -90,7 +115,16 @@ META = {
                   "copy_ops_deepcopy": 850, "copies_made": 2300, "copies_made_pickle": 1000,
                   "copy_source_with_instance_traits": 690,
                   "copy_source_value_refused_by_class_rule": 160, "copy_refused": 240,
-                  "copied_names_judged": 5600, "bookkeeping_checks": 80, "bookkeeping_controls": 20},
+                  "copied_names_judged": 5600, "bookkeeping_checks": 80, "bookkeeping_controls": 20,
+                  "indirect_hierarchies": 800, "indirect_ops": 20000, "indirect_delegate_writes": 5000,
+                  "indirect_delegate_reads": 2000, "indirect_delegate_renamed_ops": 6000,
+                  "indirect_prototype_writes": 13000, "indirect_prototype_renamed_ops": 2300,
+                  "indirect_first_access_ops": 18000, "indirect_first_access_wildcard": 10000,
+                  "indirect_first_write_wildcard_or_default": 10000,
+                  "indirect_first_write_renamed_unlistenable": 3000, "indirect_sync_links": 2000,
+                  "indirect_sync_writes": 3000, "indirect_trait_set_ops": 2000,
+                  "indirect_trait_get_ops": 1400, "indirect_register_ops": 2000, "indirect_peek_ops": 1600,
+                  "indirect_validate_checks": 3800},
         "thorough": {"evaluations": 9000000, "hierarchies": 90000, "multi_prefix_ops": 1080000,
                   "cross_class_prefix_ops": 720000, "cross_instance_ops": 3240000,
                   "instance_trait_ops": 1440000, "restored_after_remove_ops": 360000,
@@ -120,7 +154,16 @@ META = {
                   "copies_made_pickle": 30000, "copy_source_with_instance_traits": 20700,
                   "copy_source_value_refused_by_class_rule": 4800, "copy_refused": 7200,
                   "copied_names_judged": 168000, "bookkeeping_checks": 960,
-                  "bookkeeping_controls": 240},
+                  "bookkeeping_controls": 240,
+                  "indirect_hierarchies": 25000, "indirect_ops": 625000, "indirect_delegate_writes": 156250,
+                  "indirect_delegate_reads": 62500, "indirect_delegate_renamed_ops": 187500,
+                  "indirect_prototype_writes": 406250, "indirect_prototype_renamed_ops": 71875,
+                  "indirect_first_access_ops": 562500, "indirect_first_access_wildcard": 312500,
+                  "indirect_first_write_wildcard_or_default": 312500,
+                  "indirect_first_write_renamed_unlistenable": 93750, "indirect_sync_links": 62500,
+                  "indirect_sync_writes": 93750, "indirect_trait_set_ops": 62500,
+                  "indirect_trait_get_ops": 43750, "indirect_register_ops": 62500,
+                  "indirect_peek_ops": 50000, "indirect_validate_checks": 118750},
     },
     "assumptions": [
         "the manual's wildcard rules, HasStrictTraits/HasPrivateTraits definitions and the trait "
@@ -597,7 +640,7 @@ def name_pool(models):
 
 class Inst:
     __slots__ = ("serial", "cls", "obj", "itraits", "st", "touched", "removed", "hooked",
-                 "listener_done", "dyn", "handlers", "default_has", "origin", "read_all")
+                 "listener_done", "dyn", "handlers", "default_has", "origin", "read_all", "keep")
 
     def __init__(self, serial, cls, obj):
         self.serial = serial
@@ -615,6 +658,7 @@ class Inst:
         self.default_has = "no"     # 'copied' for objects made by pickle / copy / deepcopy
         self.origin = None          # how a copy was made
         self.read_all = False       # a copy operation read every trait (defaults materialised)
+        self.keep = []              # views / sync sources of the 'indirect' stratum (kept alive)
 
     def state(self, name):
         s = self.st.get(name)
@@ -669,6 +713,9 @@ class History:
         self.hook_errors = []
         self.explicit_add = None    # (serial, name) while the harness itself calls add_trait
         self.key_override = None    # mechanism key for the operation in progress
+        self.via = None             # indirect route of the operation in progress ('indirect' stratum)
+        self.class_seen = set()     # (class idx, name) mentioned in any way on an instance of the class
+        self.nviews = 0
 
     # -- bookkeeping ---------------------------------------------------------
     def new_instance(self, ci):
@@ -697,6 +744,9 @@ class History:
 
     def fail(self, key, msg, **extra):
         key = self.key_override or key
+        if self.via is not None:
+            key = "via-%s/%s" % (self.via, key)
+            msg = "[reached via %s] %s" % (self.via, msg)
         if self.sharing is not None and extra.get("cls") is not None and extra.get("name"):
             e = self.models[extra["cls"]].explicit.get(extra["name"])
             if e is not None and any(ci == e[1] and n == extra["name"] for _, ci, n in self.sharing["slots"]):
@@ -778,6 +828,7 @@ class History:
         k = kind[0]
         out = attempt(getattr, inst.obj, name)
         self.log.append(("settle-read", inst.serial, name, out[0]))
+        self.class_seen.add((inst.cls, name))
         self.ctx.count("adopting_reads")
         if out[0] == "ok":
             if k == "ReadOnly":
@@ -853,9 +904,10 @@ class History:
         return s
 
     # -- operations ------------------------------------------------------------
-    def do_get(self, inst, name, tag="get", key=None):
+    def do_get(self, inst, name, tag="get", key=None, fn=getattr):
         """Judged read.  `key`: report any disagreement under this mechanism
-        key (used for the read that directly follows a remove_trait)."""
+        key (used for the read that directly follows a remove_trait).  `fn`:
+        the accessor (an indirect route to the same name of the same object)."""
         if name in DUNDER:
             attempt(getattr, inst.obj, name)
             self.ctx.count("dunder_ops_unjudged")
@@ -863,7 +915,8 @@ class History:
         kind, route = self.governing(inst, name)
         s = self.settle(inst, name, kind)
         inst.touched.add(name)
-        out, fired = self.access(inst, name, getattr)
+        self.class_seen.add((inst.cls, name))
+        out, fired = self.access(inst, name, fn)
         self.log.append((tag, inst.serial, name, out[0], short(out[1], 30)))
         if fired:
             self.first_access("get", inst, name)
@@ -908,7 +961,7 @@ class History:
                       % (name, kind, route, has, out[1], exp[1]),
                       name=name, kind=kind, route=route, cls=inst.cls, expected=exp, got=out)
 
-    def do_set(self, inst, name, v, readback):
+    def do_set(self, inst, name, v, readback, fn=setattr):
         if name in DUNDER:
             attempt(setattr, inst.obj, name, v)
             self.ctx.count("dunder_ops_unjudged")
@@ -917,7 +970,8 @@ class History:
         s = self.settle(inst, name, kind)
         first_mention = name not in inst.touched
         inst.touched.add(name)
-        out, fired = self.access(inst, name, setattr, v)
+        self.class_seen.add((inst.cls, name))
+        out, fired = self.access(inst, name, fn, v)
         self.log.append(("set", inst.serial, name, v, out[0]))
         if fired:
             self.first_access("set", inst, name)
@@ -976,9 +1030,9 @@ class History:
         if readback:
             self.do_get(inst, name, tag="readback")
 
-    def do_fp(self, inst, name, values, readback):
+    def do_fp(self, inst, name, values, readback, fn=setattr):
         for v in values:
-            self.do_set(inst, name, v, readback)
+            self.do_set(inst, name, v, readback, fn)
 
     def do_del(self, inst, name):
         if name in DUNDER:
@@ -988,6 +1042,7 @@ class History:
         kind, route = self.governing(inst, name)
         s = self.settle(inst, name, kind)
         inst.touched.add(name)
+        self.class_seen.add((inst.cls, name))
         out, fired = self.access(inst, name, delattr)
         self.log.append(("del", inst.serial, name, out[0]))
         if fired:
@@ -1031,6 +1086,7 @@ class History:
         finally:
             self.explicit_add = None
         self.log.append(("add_trait", inst.serial, name, kind, out[0]))
+        self.class_seen.add((inst.cls, name))
         self.ctx.ev()
         if out[0] != "ok":
             self.fail("add_trait/%s/raised-%s" % (kind[0], out[0]),
@@ -1052,6 +1108,7 @@ class History:
             inst.handlers.setdefault(name, []).append(handler)
         fired = (inst.serial, name) in self.listener_log[n0:]
         self.log.append(("on_trait_change", inst.serial, name, out[0], fired))
+        self.class_seen.add((inst.cls, name))
         inst.hooked.add(name)
         self.ctx.count("hook_ops")
         if self.hook_errors:
@@ -1157,6 +1214,7 @@ class History:
         vclass = type(v).__name__
         out = attempt(lambda: self.classes[ci](**{name: v}))
         self.log.append(("new-kw", ci, name, v, out[0]))
+        self.class_seen.add((ci, name))
         if k in VALUE_KINDS or k == "Python":
             ok, stored = accepts(k, v)
             exp = "ok" if ok else "TE"
@@ -1198,6 +1256,7 @@ class History:
         s = inst.state(name)
         out = attempt(inst.obj.remove_trait, name)
         self.log.append(("remove_trait", inst.serial, name, out[0], out[1]))
+        self.class_seen.add((inst.cls, name))
         self.ctx.ev()
         if out[0] != "ok":
             self.fail("remove_trait/raised-%s" % out[0], "remove_trait(%r) raised %s" % (name, out[0]),
@@ -1243,6 +1302,255 @@ class History:
                           "the %s-governed attribute is gone: read now gives %s %r"
                           % (name, s[1], kind[0], got[0], got[1]),
                           name=name, kind=kind, route=route, cls=inst.cls, before=s[1], after=got)
+
+
+    # -- 'indirect' stratum: the same name reached through other routes ---------
+    def indirect_begin(self, family, label, inst, name, write):
+        """Counters of one indirect operation; -> True when this is the first
+        mention of the name on any instance of the object's class."""
+        ctx = self.ctx
+        kind, route = self.governing(inst, name)
+        first = (inst.cls, name) not in self.class_seen
+        self.via = label
+        ctx.count("indirect_ops")
+        ctx.count("indirect_%s_ops" % family)
+        wild = route[0].startswith("prefix") or route[0] == "default"
+        if first:
+            ctx.count("indirect_first_access_ops")
+            ctx.count("indirect_first_access_%s" % family)
+            if wild:
+                ctx.count("indirect_first_access_wildcard_or_default")
+                if route[0].startswith("prefix"):
+                    ctx.count("indirect_first_access_wildcard")
+                if write:
+                    ctx.count("indirect_first_write_wildcard_or_default")
+        ctx.sig("indirect", label, kind[0], route[0], first, write, self.root)
+        return first
+
+    def new_view(self, inst, name, plan):
+        self.nviews += 1
+        view, dname = IND.make_view("%s_%d" % (self.case.replace(":", "_"), self.nviews), plan, inst.obj)
+        inst.keep.append(view)
+        if plan[2]:
+            # a listenable deferring trait makes traits hook the target name on the
+            # delegate (a bookkeeping instance trait, like on_trait_change(handler, name))
+            inst.hooked.add(name)
+        self.log.append(("view", inst.serial, name, plan))
+        return view, dname
+
+    def do_delegate(self, inst, name, plan, what, values, readback):
+        """A DelegatesTo-style deferring trait on another object: reads and
+        writes land on `name` of inst.obj and are judged exactly like direct
+        ones (then read back directly)."""
+        label = IND.via_label(plan)
+        first = self.indirect_begin("delegate", label, inst, name, what != "get")
+        if plan[1] != "same":
+            self.ctx.count("indirect_delegate_renamed_ops")
+            if first and what != "get" and not plan[2]:
+                self.ctx.count("indirect_first_write_renamed_unlistenable")
+        try:
+            view, dname = self.new_view(inst, name, plan)
+        except Exception as e:  # noqa: BLE001
+            self.fail("view-construction/raised-%s" % type(e).__name__,
+                      "constructing the delegating object for %r raised %r" % (name, e), name=name)
+        self.ctx.count("indirect_delegate_%s" % ("reads" if what == "get" else "writes"))
+        if what == "get":
+            self.do_get(inst, name, tag="get-via-" + label, fn=IND.view_getter(view, dname))
+        else:
+            self.do_fp(inst, name, values, readback, fn=IND.view_setter(view, dname))
+            if not readback:
+                self.do_get(inst, name, tag="read-after-writes-via-" + label)
+
+    def do_prototype(self, inst, name, plan, values):
+        """A PrototypedFrom-style deferring trait: the definition (hence the
+        accept pattern, write-once policy, ...) is that of `name` on inst.obj,
+        the accepted value stays on the view; inst.obj is left untouched."""
+        kind, route = self.governing(inst, name)
+        k = kind[0]
+        self.settle(inst, name, kind)
+        label = IND.via_label(plan)
+        first = self.indirect_begin("prototype", label, inst, name, True)
+        if plan[1] != "same":
+            self.ctx.count("indirect_prototype_renamed_ops")
+            if first and not plan[2]:
+                self.ctx.count("indirect_first_write_renamed_unlistenable")
+        self.class_seen.add((inst.cls, name))
+        try:
+            view, dname = self.new_view(inst, name, plan)
+        except Exception as e:  # noqa: BLE001
+            self.fail("view-construction/raised-%s" % type(e).__name__,
+                      "constructing the prototyped object for %r raised %r" % (name, e), name=name)
+        if k == "ReadOnlyD" and kind[2] != "arg":
+            # the default method / class value belongs to the prototype's class: whether
+            # it also defines the local copy is not specified
+            self.ctx.count("indirect_prototype_unjudged")
+            return
+        local = "no"
+        for v in values:
+            out = attempt(setattr, view, dname, v)
+            vclass = type(v).__name__
+            self.log.append(("set-via-" + label, inst.serial, name, dname, v, out[0]))
+            exp, stores, stored = predict_write(kind, local, v)
+            self.ctx.ev()
+            self.ctx.count("indirect_prototype_writes")
+            self.ctx.sig("proto-set", k, route[0], vclass, local, out[0])
+            if out[0].startswith("EXC-"):
+                self.fail("set/%s/unexpected-%s" % (k, out[0]),
+                          "assignment through %s=%r raised %s" % (dname, v, out[0]), name=name, kind=kind)
+            if out[0] != exp:
+                if k == "ReadOnly":
+                    c = "second-assignment-accepted" if exp == "TE" else \
+                        "defining-assignment-rejected-" + out[0]
+                elif exp == "TE":
+                    c = "accepted-%s" % vclass if out[0] == "ok" else "wrong-exception-" + out[0]
+                else:
+                    c = "rejected-%s-%s" % (vclass, out[0])
+                self.fail("set/%s/%s" % (k, c),
+                          "assignment %s = %r on an object whose trait %r is prototyped from %r (governed "
+                          "there by %s via %s) gave %s, expected %s"
+                          % (dname, v, dname, name, kind, route, out[0], exp),
+                          name=name, kind=kind, route=route, cls=inst.cls, value=v, expected=exp, got=out[0])
+            if exp == "ok" and stores:
+                local = "yes"
+                got = attempt(getattr, view, dname)
+                if got[0] != "ok" or not (got[1] is stored or same(got[1], stored)):
+                    self.fail("get/%s/wrong-value" % k,
+                              "after the accepted assignment %s = %r the prototyped trait reads %s %r, "
+                              "expected %r" % (dname, v, got[0], got[1], stored),
+                              name=name, kind=kind, route=route, cls=inst.cls, value=v, got=got)
+        # the prototype itself was not written
+        self.do_get(inst, name, tag="prototype-after-local-writes")
+
+    def do_sync(self, inst, name, values, mutual):
+        """other.sync_trait('v', inst.obj, name, mutual): the initial copy and
+        every forwarded change are assignments to `name` on inst.obj (the
+        forwarding swallows a rejection, so forwarded assignments are judged by
+        the direct read that follows them)."""
+        kind, route = self.governing(inst, name)
+        k = kind[0]
+        s = self.settle(inst, name, kind)
+        if s[0] not in ("yes", "no"):
+            self.do_fp(inst, name, values, True)
+            return
+        label = "sync_trait-%s" % ("mutual" if mutual else "oneway")
+        self.indirect_begin("sync", label, inst, name, True)
+        inst.touched.add(name)
+        self.class_seen.add((inst.cls, name))
+        src = IND.SyncSource()
+        src.v = values[0]
+        inst.keep.append(src)
+        exp, stores, stored = predict_write(kind, s[0], values[0])
+        out = attempt(src.sync_trait, "v", inst.obj, name, mutual)
+        self.log.append(("sync_trait", inst.serial, name, mutual, values[0], out[0]))
+        self.ctx.ev()
+        self.ctx.count("indirect_sync_links")
+        self.ctx.sig("sync-link", k, route[0], mutual, type(values[0]).__name__, s[0], out[0])
+        if mutual:
+            inst.hooked.add(name)
+        allowed = (exp,)
+        if mutual and k == "Event":
+            allowed = ("ok", "AE")      # the reverse link reads the attribute back
+        if out[0] not in allowed:
+            vclass = type(values[0]).__name__
+            if out[0].startswith("EXC-"):
+                c = "unexpected-" + out[0]
+            elif exp == "TE":
+                c = "accepted-%s" % vclass if out[0] == "ok" else "wrong-exception-" + out[0]
+            else:
+                c = "rejected-%s-%s" % (vclass, out[0])
+            self.fail("link/%s/%s" % (k, c),
+                      "sync_trait to %r (governed by %s via %s, stored=%s) with initial value %r gave %s, "
+                      "expected %s" % (name, kind, route, s[0], values[0], out[0], exp),
+                      name=name, kind=kind, route=route, cls=inst.cls, value=values[0], got=out[0])
+        if exp == "ok" and stores:
+            s[0], s[1] = "yes", stored
+        self.do_get(inst, name, tag="read-after-sync-link")
+        for v in values[1:]:
+            s = inst.state(name)
+            if s[0] not in ("yes", "no"):
+                break
+            exp, stores, stored = predict_write(kind, s[0], v)
+            out = attempt(setattr, src, "v", v)
+            self.log.append(("sync-forward", inst.serial, name, v, out[0]))
+            self.ctx.count("indirect_sync_writes")
+            if out[0] != "ok":
+                self.fail("forward/raised-%s" % out[0],
+                          "assignment to the synchronised source raised %s" % out[0], name=name, kind=kind)
+            if exp == "ok" and stores:
+                s[0], s[1] = "yes", stored
+            self.do_get(inst, name, tag="read-after-sync-forward")
+
+    def do_register(self, inst, name, reg, values, readback, unregister):
+        """observe / on_trait_change registration as the (possibly first)
+        mention of a name; not judged itself, the fingerprint after it is."""
+        rname, fn = reg
+        self.indirect_begin("register", "after-" + rname, inst, name, False)
+        self.class_seen.add((inst.cls, name))
+        out = attempt(fn, inst.obj, name)
+        self.log.append(("register", rname, inst.serial, name, out[0]))
+        inst.hooked.add(name)
+        self.do_fp(inst, name, values, readback)
+        if unregister and out[0] == "ok" and rname == "observe-optional":
+            out = attempt(IND.unreg_observe, inst.obj, name)
+            self.log.append(("unregister", rname, inst.serial, name, out[0]))
+            self.ctx.count("indirect_unregister_ops")
+            self.do_get(inst, name, tag="read-after-unobserve")
+            self.do_fp(inst, name, values[:2], True)
+
+    def do_peek(self, inst, name, peek, values, readback):
+        """trait() / base_trait() / trait_names() / traits() look-ups as the
+        (possibly first) mention of a name; unjudged, the fingerprint is."""
+        pname, fn = peek
+        self.indirect_begin("peek", "after-" + pname, inst, name, False)
+        self.class_seen.add((inst.cls, name))
+        out = attempt(fn, inst.obj, name)
+        self.log.append(("peek", pname, inst.serial, name, out[0]))
+        self.do_fp(inst, name, values, readback)
+
+    def do_validate(self, inst, name, values):
+        """validate_trait(name, value): legal exactly when the governing trait
+        accepts the value (judged for the value kinds and untyped names)."""
+        kind, route = self.governing(inst, name)
+        k = kind[0]
+        self.indirect_begin("validate", "validate_trait", inst, name, False)
+        self.class_seen.add((inst.cls, name))
+        for v in values:
+            out = attempt(inst.obj.validate_trait, name, v)
+            vclass = type(v).__name__
+            self.log.append(("validate_trait", inst.serial, name, v, out[0]))
+            if k not in VALUE_KINDS and k != "Python":
+                self.ctx.count("indirect_validate_unjudged")
+                continue
+            ok, stored = accepts(k, v)
+            exp = "ok" if ok else "TE"
+            self.ctx.ev()
+            self.ctx.count("indirect_validate_checks")
+            self.ctx.sig("validate", k, route[0], vclass, out[0])
+            if out[0] != exp:
+                c = ("accepted-%s" % vclass) if out[0] == "ok" else "rejected-%s-%s" % (vclass, out[0])
+                self.fail("validate/%s/%s" % (k, c),
+                          "validate_trait(%r, %r) (governed by %s via %s) gave %s, expected %s"
+                          % (name, v, kind, route, out[0], exp),
+                          name=name, kind=kind, route=route, cls=inst.cls, value=v, got=out[0])
+            if ok and not (out[1] is stored or same(out[1], stored)):
+                self.fail("validate/%s/wrong-value" % k,
+                          "validate_trait(%r, %r) (governed by %s via %s) returned %r, expected %r"
+                          % (name, v, kind, route, out[1], stored),
+                          name=name, kind=kind, route=route, cls=inst.cls, value=v, got=out)
+
+
+def predict_write(kind, has, v):
+    """Outcome of assigning v to a name governed by `kind` whose stored state is
+    `has` ('yes' / 'no'): -> (expected outcome, stores a value?, stored value)."""
+    k = kind[0]
+    if k in VALUE_KINDS or k == "Python":
+        ok, stored = accepts(k, v)
+        return ("ok" if ok else "TE"), ok, stored
+    if k == "ReadOnly":
+        return ("ok", True, v) if has == "no" else ("TE", False, None)
+    if k == "Event":
+        return "ok", False, None
+    return "TE", False, None            # Constant, ReadOnlyD, Disallow
 
 
 def picklable_variant(rng, root, steps):
@@ -1358,6 +1666,12 @@ def _run_history(ctx, case, rng, stratum, lrng, root, steps, models, classes, hu
         weights.update({"add": 3.0, "copy": 3.0, "remove": 0.8, "hook": 0.5, "unhook": 0.5, "del": 1.0})
     if stratum == "shared":
         weights.update({"get": 4, "new": 1.2})
+    if stratum == "indirect":
+        ctx.count("indirect_hierarchies")
+        weights = {"fp": 1.0, "set": 1.0, "get": 1.0, "del": 0.7, "add": 1.0, "remove": 0.8, "new": 0.8,
+                   "hook": 0.3, "unhook": 0.3,
+                   "i-dset": 3.0, "i-dget": 1.2, "i-proto": 1.6, "i-tset": 1.2, "i-tget": 0.8,
+                   "i-sync": 1.2, "i-reg": 1.2, "i-peek": 1.0, "i-validate": 0.8}
 
     def fp_values():
         order = list(VCLASSES)
@@ -1378,9 +1692,52 @@ def _run_history(ctx, case, rng, stratum, lrng, root, steps, models, classes, hu
             else:
                 name = rng.choice(DUNDER)
             ctx.count("history_ops")
+            H.via = None
+            if op.startswith("i-"):
+                # indirect routes: mostly as the first mention of the name on the class
+                fresh = [n for n in pool if (inst.cls, n) not in H.class_seen]
+                if fresh and rng.random() < 0.75:
+                    name = rng.choice(fresh)
+                if name in DUNDER:
+                    name = rng.choice(pool)
+                readback = rng.random() < 0.7
+                if op == "i-dset" or op == "i-dget":
+                    plan = IND.plan_view(rng, name, pool, IND.DELEGATE_MODES)
+                    H.do_delegate(inst, name, plan, "get" if op == "i-dget" else "set",
+                                  fp_values() if rng.random() < 0.7 else fp_values()[:1], readback)
+                    if rng.random() < 0.3:
+                        H.do_get(inst, name)        # the same route stays in the key
+                elif op == "i-proto":
+                    plan = IND.plan_view(rng, name, pool, IND.PROTOTYPE_MODES)
+                    H.do_prototype(inst, name, plan, fp_values())
+                elif op == "i-tset":
+                    label, fn = rng.choice(IND.SETTERS)
+                    H.indirect_begin("trait_set", label, inst, name, True)
+                    H.do_fp(inst, name, fp_values() if rng.random() < 0.7 else fp_values()[:1],
+                            readback, fn)
+                elif op == "i-tget":
+                    label, fn = rng.choice(IND.GETTERS)
+                    H.indirect_begin("trait_get", label, inst, name, False)
+                    H.do_get(inst, name, tag=label, fn=fn)
+                elif op == "i-sync":
+                    H.do_sync(inst, name, fp_values()[:rng.randint(1, 4)], rng.random() < 0.5)
+                elif op == "i-reg":
+                    H.do_register(inst, name, rng.choice(IND.REGISTRATIONS), fp_values(), readback,
+                                  rng.random() < 0.4)
+                elif op == "i-peek":
+                    H.do_peek(inst, name, rng.choice(IND.PEEKS), fp_values(), readback)
+                else:
+                    H.do_validate(inst, name, fp_values())
+                continue
             if op == "new":
                 if len(H.insts) < 10:
                     ci = rng.randrange(len(classes))
+                    if stratum == "indirect":
+                        # constructor keyword as the first mention of the name on the class
+                        fresh = [n for n in pool if (ci, n) not in H.class_seen]
+                        if fresh and rng.random() < 0.75:
+                            name = rng.choice(fresh)
+                            ctx.count("indirect_first_access_constructor_kw")
                     if name not in DUNDER and rng.random() < 0.6:
                         # constructor keyword: assignment before any read
                         ni = H.do_new_kw(ci, name, value_for(rng, rng.choice(VCLASSES)))
@@ -1619,7 +1976,8 @@ def run(ctx):
         finally:
             ctx.end()
     for stratum, tag, n in (("shared", "shr", ctx.scale(1600, 50000)),
-                            ("copy", "cpy", ctx.scale(1600, 50000))):
+                            ("copy", "cpy", ctx.scale(1600, 50000)),
+                            ("indirect", "ind", ctx.scale(1600, 50000))):
         for h in range(n):
             if not ctx.mine(h):
                 continue
